@@ -37,7 +37,7 @@ PROBE_FLOORS = {"cut_on_first_step": 27, "cut_on_last_step": 30, "cut_in_middle"
 
 PROFILE = {
     "n_min": 4, "n_max": 14, "n_long": 40, "p_long": 0.08, "c_min": 1, "c_max": 4, "p_bar": 1.0, "extras_max": 12,
-    "extra_kinds": ["nbbo", "nbbo", "custom", "obs"], "p_sparse_grid": 0.0, "p_folds": 0.3, "p_markov": 0.2, "p_warmup": 0.25,
+    "extra_kinds": ["nbbo", "nbbo", "custom", "obs"], "p_sparse_grid": 0.0, "p_folds": 0.3, "p_markov": 0.2, "p_warmup": 0.25, "p_custom_frame": 0.25,
     "delays": [0, 0, 1, 2], "contract_kinds": ["ETF", "spot", "margined", "future"], "p_with_cash": 0.2,
     "fixed_fees": [0, 0.01], "p_rate": 0.4, "spreads": [0, 0.001, 0.01],
 }
@@ -175,6 +175,8 @@ def execute(scenario):
                 violate("next_trades_depend_on_future", "variant B: the execution following the step landing on {} differs in {}: base {} / variant {}".format(
                     scenario["cut"], keys, str(eb)[:300], str(eo)[:300]), variant="B", kind="exec", field=keys[0] if keys else "?")
         # probes
+        if any(es.get("via_frame") for es in scenario["envs"][0]["events"]):
+            probe("custom_events_loaded_from_table")
         nsteps = len([s for s in ep["steps"] if not s["done_before"]])
         idx = calls.index(upto) if upto is not None else -1
         if idx == 0:
